@@ -104,10 +104,10 @@ def write_replay(prop, seed, payload) -> str:
     return path
 
 
-def run_hist_check(prop: str, tier: str, verif_seed: int) -> int:
+def run_hist_check(prop: str, tier: str, verif_seed: int, *, tier_key=None, extra_evidence=None, extra_violations=0, extra_known=None) -> int:
     t0 = time.time()
     profile = PROP_PROFILE[prop]
-    T = HIST_TIERS[tier]
+    T = HIST_TIERS[tier_key or tier]
     G = T["groups"]
     all_runs = []
     harness_errors = []
@@ -162,10 +162,10 @@ def run_hist_check(prop: str, tier: str, verif_seed: int) -> int:
                 elif rec["type"] == "truncated":
                     truncated += 1
 
-    return finish_hist(prop, profile, tier, verif_seed, all_runs, harness_errors, states, envs_used, n_planned, truncated, t0)
+    return finish_hist(prop, profile, tier, verif_seed, all_runs, harness_errors, states, envs_used, n_planned, truncated, t0, extra_evidence, extra_violations, extra_known)
 
 
-def finish_hist(prop, profile, tier, verif_seed, all_runs, harness_errors, states, envs_used, n_planned, truncated, t0):
+def finish_hist(prop, profile, tier, verif_seed, all_runs, harness_errors, states, envs_used, n_planned, truncated, t0, extra_evidence=None, extra_violations=0, extra_known=None):
     from sim.findings import load_findings
 
     findings = load_findings()
@@ -233,12 +233,18 @@ def finish_hist(prop, profile, tier, verif_seed, all_runs, harness_errors, state
         path = write_replay(prop, r["seed"], payload)
         out_lines.append(f"VIOLATION property={prop} replay={path}")
         out_lines.append(f"  oracle={v['oracle']} op={v.get('op')} seed={r['seed']} steps={len(payload['steps'] or [])}: {v['what'][:300]}")
+    for k, n in (extra_known or {}).items():
+        known_hits[k] += n
     for f in findings:
         if f.get("status") == "open" and f["property"] == prop:
             out_lines.append(f"KNOWN-FINDING: property={prop} {f['id']}: {f['what']} (hit {known_hits.get(f['id'], 0)}x in this run)")
 
     # evidence
-    ev = build_hist_evidence(prop, profile, tier, verif_seed, all_runs, states, envs_used, n_planned, truncated, n_viol, known_hits, harness_errors, n_twin_pairs, time.time() - t0)
+    ev = build_hist_evidence(prop, profile, tier, verif_seed, all_runs, states, envs_used, n_planned, truncated, n_viol + extra_violations, known_hits, harness_errors, n_twin_pairs, time.time() - t0)
+    if extra_evidence:
+        ev["coverage"].update(extra_evidence)
+        if "workload_i" in extra_evidence:
+            ev["wall_s"] = round(ev["wall_s"] + extra_evidence["workload_i"].get("wall_s", 0), 2)
     os.makedirs(os.path.join(ROOT, "evidence"), exist_ok=True)
     json.dump(ev, open(os.path.join(ROOT, "evidence", f"{prop}.json"), "w"), indent=1, default=str)
 
